@@ -93,3 +93,9 @@ package object
 //@ modifies iter.pos, iter.current
 //@ ensures[C01,C16.listiter.live.more] old(iter.pos) + 1 < int64(len(iter.l.items)) ==> result1 && iter.pos == old(iter.pos) + 1 && result0 == iter.l.items[int(iter.pos)]
 //@ ensures[C01,C16.listiter.live.end] !(old(iter.pos) + 1 < int64(len(iter.l.items))) ==> !result1 && iter.pos == old(iter.pos)
+
+// C08: an attribute of a proxied struct is one of its DIRECT fields (newGoType enumerates Field(0..NumField-1)); the
+// three places that resolve a field by name on a reflect.Value are listed. A promoted field of an embedded pointer that
+// is nil makes reflect's FieldByName panic, so the attribute table must not contain promoted names (seed C08l enumerated
+// reflect.VisibleFields).
+//@ scan[C08.proxy.fields.direct] C08 extcalls reflect.VisibleFields,reflect.(Value).FieldByName,reflect.(Value).FieldByIndex: (*Proxy).GetAttr (*Proxy).SetAttr (*StructConverter).To
